@@ -21,10 +21,14 @@ EXPLANATION = (
     'check_asserts. Any other rejecting condition on a public-input field is reported. (b) address-based extraction: in '
     'each verify_public_input the main-page `address` field must reach a rejecting comparison against the program start '
     'resp. the output segment start, and the number of cells taken must be compared with the page length. (c) each '
-    'component of the returned pair depends on main-page values, a count and Pedersen.')
+    'component of the returned pair depends on main-page values, a count and Pedersen. (d) added after the mutation '
+    'campaigns: the layouts\' numeric constants agree with tables/constants.json; verify_public_input\'s entry conditions '
+    '(initial/final ap < 2^64, no continuous pages, initial pc = 1, final pc = 1 + 4) and the (offset, address, length) of '
+    'its two extract_range calls; safe_mult / safe_div compute a product / floor quotient; the three dynamic unit budgets '
+    'are sums of products with the specified coefficients.')
 NOT_DECIDED = [
     'that field_div by the instance size rejects non-multiples (true for an arithmetic reason: the quotient is then a huge field element)',
-    'the arithmetic of the dynamic-layout unit budgets',
+    'that the dynamic-layout unit budgets are the right ones beyond their shape (sum of products with the specified coefficients)',
 ]
 TRUSTED = ['rustc nightly MIR', 'cells-per-instance table (Cairo builtin specification) in rules/props/c14.py']
 
@@ -122,6 +126,7 @@ def run(ctx, rep):
     nck = common.constants_check(db, rep, 'C14.constants', cfg, layouts=True, other=('swiftness_air::consts::',))
     rep.floor('C14.constants', 'constants compared with the table', nck, 300)
     helpers(db, rep, cfg)
+    unit_budgets(db, rep, cfg)
     lay = db.layouts()
     rep.floor('C14', 'LayoutTrait impls', len(lay), 7)
     n_builtin = 0
@@ -275,3 +280,64 @@ def helpers(db, rep, cfg):
         ok = divs == [('floor_div', (A1, A2))]
         rep.ob('C14.helpers', 'safe_div', ok, f'safe_div: {[(n, tuple(exprtree.show(x) for x in a)) for n, a in divs]} (expected floor_div(value, divisor))',
                sd.loc(), cfg)
+
+
+# Cairo dynamic layout: units consumed per step / per builtin instance
+UNIT_BUDGETS = {
+    'memory_units_row_ratio': dict({'n_steps': 4}, **{k.lower(): v for k, v in CELLS.items()}),
+    'range_check_units_row_ratio': {'n_steps': 3, 'range_check': 8, 'range_check96': 6, 'mul_mod': 66},
+    'diluted_units_row_ratio': {'bitwise': 68, 'keccak': 16384},
+}
+
+
+def unit_budgets(db, rep, cfg):
+    """dynamic layout: the three unit budgets are sums  c_steps * n_steps + sum_b c_b * <b>_copies (+ the public-memory
+    share for memory units)  <=  trace_length / <kind>_units_row_ratio, with the coefficients of the Cairo specification
+    (memory: cells per instance, 4 per step). Read off the def-use tree of the comparison: a sum of products only."""
+    import exprtree
+    lay = db.layouts()
+    if 'dynamic' not in lay:
+        return
+    v = common.layout_method(db, lay['dynamic'], 'validate_public_input', 'C14.units')
+    T = exprtree.Trees(db, v)
+
+    def flat(t):
+        if isinstance(t, tuple) and t[0] == 'add' and len(t) == 3:
+            return flat(t[1]) + flat(t[2])
+        return [t]
+    found = {}
+    for bi, t in v.calls():
+        if t['f'].get('name') != 'le' or not t['f'].get('trait', '').startswith('core::cmp'):
+            continue
+        lhs, rhs = T.operand(t['args'][0]), exprtree.show(T.operand(t['args'][1]))
+        terms = flat(lhs)
+        kind = next((k for k in UNIT_BUDGETS if k in rhs), None)
+        if kind is None or len(terms) < 2:
+            continue
+        coeffs, odd = {}, []
+        for x in terms:
+            if isinstance(x, tuple) and x[0] == 'mul' and len(x) == 3 and any(isinstance(y, tuple) and y[0] == 'val' for y in x[1:]):
+                c = next(y[1] for y in x[1:] if isinstance(y, tuple) and y[0] == 'val')
+                o = next(y for y in x[1:] if not (isinstance(y, tuple) and y[0] == 'val'))
+                if isinstance(o, tuple) and o[0] == 'phi':
+                    nm = (v.local_name(o[1]) or f'_{o[1]}').replace('_copies', '')
+                elif exprtree.show(o) == 'pow_felt(2, a1.log_n_steps)':
+                    nm = 'n_steps'
+                else:
+                    nm = exprtree.show(o)[:30]
+                coeffs[nm] = coeffs.get(nm, 0) + c
+            elif isinstance(x, tuple) and isinstance(x[0], str) and x[0].endswith('safe_div') and kind == 'memory_units_row_ratio':
+                coeffs['public-memory-share'] = 1
+            else:
+                odd.append(exprtree.show(x)[:40])
+        found[kind] = (coeffs, odd, t['line'])
+    for kind, want in UNIT_BUDGETS.items():
+        w = dict(want)
+        if kind == 'memory_units_row_ratio':
+            w['public-memory-share'] = 1
+        got = found.get(kind)
+        ok = got is not None and got[0] == w and not got[1]
+        rep.ob('C14.units', kind, ok,
+               f'dynamic {kind.replace("_row_ratio", "")} budget: ' + ('sum of products with the specified coefficients' if ok else
+               (f'coefficients {got[0]}, other terms {got[1]}; specified {w}' if got else 'comparison not found')),
+               v.loc(got[2]) if got else v.loc(), cfg)
